@@ -28,7 +28,7 @@ def objective(i, sense, shape):
     """objective i (0-based) of a file; every objective is a different function of (x0, x1)"""
     x = ('v', 0)
     if shape == 'lin':   return (sense, None, {0: i + 1, 1: -(i + 2)})                       # (i+1) x0 - (i+2) x1
-    if shape == 'const': return (sense, ('n', (7 + i) * (-1 if i % 2 else 1)), {})                # 7, -8, 9 (both signs)
+    if shape == 'const': return (sense, ('n', (7 + i) * (-1 if i % 2 else 1) * (100000 if i == 2 else 1)), {})   # 7, -8, 900000 (both signs; the last needs 32 bits)
     if shape == 'abs':   return (sense, ('add', ('abs', x), ('n', i - 1.5)), {1: i + 3})        # |x0| + (i-1.5) + (i+3) x1 (negative constants too)
     if shape == 'quad':  return (sense, ('mul', ('pow2', x), ('n', i + 1)), {1: 2 * i + 1})    # (i+1) x0^2 + (2i+1) x1
     if shape == 'prod':  # (x0 + i + 2) * (x1 - 1) + (i+1) x0: multiplying out leaves linear terms and a constant next to x0*x1
@@ -60,7 +60,13 @@ def nl_binary(m):
 
     def expr(e):
         k = e[0]
-        if k == 'n': out.append(b'n' + D(e[1])); return
+        if k == 'n':
+            # AMPL's binary writer uses the short forms for integral constants: 's' (16 bit) and 'l' (32 bit)
+            v = e[1]
+            if float(v).is_integer() and abs(v) < 32768: out.append(b's' + struct.pack('<h', int(v)))
+            elif float(v).is_integer() and abs(v) < 2 ** 31: out.append(b'l' + I(int(v)))
+            else: out.append(b'n' + D(v))
+            return
         if k == 'v': out.append(b'v' + I(e[1])); return
         code = nlmodel.NUM_OPS[k]
         assert ARITY[code] == len(e) - 1
@@ -126,9 +132,9 @@ def cases_for(tier):
             for m in (0, 1):
                 for script in ('quadobj', 'noquadobj'):
                     if tier == 'thorough' or n < 3:
-                        combos = [(r, f) for r in ('env', 'arg') for f in ('text', 'binary')] + [('file', 'text'), ('filenl', 'binary'), ('mpopts', 'text'), ('query', 'text'), ('query-e', 'text')]
+                        combos = [(r, f) for r in ('env', 'arg') for f in ('text', 'binary')] + [('file', 'text'), ('filenl', 'binary'), ('mpopts', 'text'), ('query', 'text'), ('query-e', 'text'), ('both', 'binary')]
                     else:
-                        combos = [('env', 'text'), ('arg', 'binary'), ('file', 'text'), ('mpopts', 'binary'), ('query-e', 'text')]
+                        combos = [('env', 'text'), ('arg', 'binary'), ('file', 'text'), ('mpopts', 'binary'), ('query-e', 'text'), ('both', 'text')]
                     for route, fmt in combos:
                         out.append((tuple(spec), k, m, route, fmt, script))
     return out
@@ -251,6 +257,11 @@ def run_case(binary, wd, case):
         toks = ([] if k is None else ['objno=%d' % k, 'objno=?']) + ['multiobj=%d' % m, 'multiobj=?', 'obj:no=?']
         env_opts = {'vdriver_options': ' '.join(toks)}
         if route == 'query-e': pre = ('-e',)
+    elif route == 'both':
+        # both environment variables: <solver>_options is parsed after mp_options and wins
+        other = 1 if k != 1 else 0
+        env_opts = {'mp_options': ('' if k is None else 'objno=%d ' % other) + 'multiobj=%d' % (1 - m),
+                    'vdriver_options': ' '.join(([] if k is None else ['objno=%d' % k]) + ['multiobj=%d' % m])}
     elif route == 'mpopts':
         # the solver-independent variable mp_options, value syntax without '=': "objno 2"
         toks = ([] if k is None else ['objno %d' % k]) + ['multiobj %d' % m]
@@ -476,7 +487,7 @@ def _main(chk, tier, binary):
     vcheck.finalize_classes(chk)
     chk.set('rule', 'exhaustive: NL files with n in 0..3 objectives, objective i = {min,max} x {linear, constant only, '
             '|x0|+i+linear, (i+1)x0^2+linear, (x0+i+2)(x1-1)+linear} (%s) x objno {unset, 0..n+1} x multiobj {0,1} x {objno=/multiobj= in '
-            'vdriver_options, obj:no=/obj:multi= on the command line, objno=/multiobj= in an option file ending with / without a newline, "objno K" in mp_options, assignments followed by name=? queries with / without the -e switch} x {text, binary NL} x {quadratic objective accepted, '
+            'vdriver_options, obj:no=/obj:multi= on the command line, objno=/multiobj= in an option file ending with / without a newline, "objno K" in mp_options, assignments followed by name=? queries with / without the -e switch, contradicting mp_options next to <solver>_options} x {text, binary NL} x {quadratic objective accepted, '
             'not accepted}%s; one driver process per case. Oracle: reference selection function + value comparison of each '
             'delivered objective (following aux variables through AbsConstraint / quadratic constraints / fixed variables) '
             'with the NL reference evaluator at %d points separating span{1,x0,x1,|x0|,x0^2,x0*x1}; `objno N code` line. '
@@ -484,7 +495,7 @@ def _main(chk, tier, binary):
             % ('all combinations' if tier == 'thorough' else 'all combinations for n<=2; for n=3 all 125 shape triples with alternating senses',
                '' if tier == 'thorough' else ' (for n=3 route and format are paired: env+text, arg+binary)', len(POINTS)))
     chk.set('bounds', {'n': [0, 3], 'shapes': SHAPES, 'senses': SENSES, 'objno': 'unset, 0..n+1', 'multiobj': [0, 1],
-                       'routes': ['env', 'arg', 'file', 'filenl', 'mpopts', 'query', 'query-e'], 'formats': ['text', 'binary'], 'scripts': sorted(SCRIPTS)})
+                       'routes': ['env', 'arg', 'file', 'filenl', 'mpopts', 'query', 'query-e', 'both'], 'formats': ['text', 'binary'], 'scripts': sorted(SCRIPTS)})
     chk.assumptions += [
         '.sol line `objno N code`: N is zero-based (sol.h writes objno_used()-1; ASL convention obj_no), so "objective k used" '
         'is N = k-1 and "no objective used" is N = -1; demanded: N = k-1 in single-objective mode, N = -1 when nothing was '
